@@ -289,6 +289,7 @@ class C12(Check):
         for i, q in enumerate(sizes):
             c = proc.default_cfg(self.rng.fork("est%d" % i) if i else None, counts=[1, 1, 0, 0, 0])
             c["qos_lens"] = [q]
+            c["snssai_shift"] = i % 4          # granted S-NSSAI: as asked / without SD / another slice / SST only
             if q in flows:
                 c["flow_desc_len"] = flows[q]
             cfgs.append(c)
@@ -317,7 +318,8 @@ class C12(Check):
                 self._distinct.add("establish-%d" % q)
             rows.append({"qos_rules_octets": q, "flow_descriptions_octets": c.get("flow_desc_len", 0), "rc": r["rc"], "verdict": r["verdict"], "reported": reported, "assigned": exp})
             if r["rc"] != 0 or not exp or reported != exp:
-                self.violation({"theorem_or_stream": "process: EstablishPDU against the reference SMF", "input": {"qos_rules_octets": q, "flow_descriptions_octets": c.get("flow_desc_len", 0), "imsi": c["imsi"]},
+                self.violation({"theorem_or_stream": "process: EstablishPDU against the reference SMF", "input": {"qos_rules_octets": q, "flow_descriptions_octets": c.get("flow_desc_len", 0), "imsi": c["imsi"],
+                                                                                                                 "granted_snssai": ["as requested", "SST 1 without SD", "another slice (2/aabbcc)", "SST ff without SD"][c.get("snssai_shift", 0) % 4]},
                                 "observed": {"rc": r["rc"], "verdict": r["verdict"], "reported": reported, "stdout": r["stdout"][-500:]}, "expected": {"assigned": exp},
                                 "why": "the emulator did not report the assigned UE address / TEID / UPF address for a well-formed setup request"})
         self.cov["establish"] = rows
